@@ -521,6 +521,35 @@ func (w *vRW) AddAnnotation(options ...check.AddAnnotationOption) {
 	w.anns = append(w.anns, vAnn{plain: true})
 }
 
+// vbAt reports whether some annotation is located at element of (at the element itself or at any of its
+// sub-locations: name, type, option ...). The property only promises "located at the edited element".
+func (w *vRW) vbAt(of any) bool {
+	for i := 0; i < len(w.anns); i++ {
+		if w.anns[i].tag != "" && w.anns[i].of == of {
+			return true
+		}
+	}
+	return false
+}
+
+// vbInFile reports whether some annotation is attributable to the file with the given path: located at an element
+// of that file, or without location but carrying the path as input file name.
+func (w *vRW) vbInFile(path string) bool {
+	for i := 0; i < len(w.anns); i++ {
+		a := w.anns[i]
+		if a.tag == "" {
+			if a.file == path {
+				return true
+			}
+			continue
+		}
+		if d, ok := a.of.(bufprotosource.Descriptor); ok && d.File().Path() == path {
+			return true
+		}
+	}
+	return false
+}
+
 // vbHas reports whether some annotation is located (tag) at element of.
 func (w *vRW) vbHas(tag string, of any) bool {
 	for i := 0; i < len(w.anns); i++ {
